@@ -189,10 +189,10 @@ func (s *ExecutionPayloadHeader) View() *ExecutionPayloadHeaderView {
 	if err != nil {
 		panic(err)
 	}
-	pr, cb, sr, rr := (*RootView)(&s.ParentHash), s.FeeRecipient.View(), (*RootView)(&s.StateRoot), (*RootView)(&s.ReceiptsRoot)
-	lb, rng, nr, gl, gu := s.LogsBloom.View(), (*RootView)(&s.PrevRandao), s.BlockNumber, s.GasLimit, s.GasUsed
-	ts, bf, bh, tr := Uint64View(s.Timestamp), &s.BaseFeePerGas, (*RootView)(&s.BlockHash), (*RootView)(&s.TransactionsRoot)
-	wr := (*RootView)(&s.WithdrawalsRoot)
+	pr, cb, sr, rr := common.RootViewOf(s.ParentHash), s.FeeRecipient.View(), common.RootViewOf(s.StateRoot), common.RootViewOf(s.ReceiptsRoot)
+	lb, rng, nr, gl, gu := s.LogsBloom.View(), common.RootViewOf(s.PrevRandao), s.BlockNumber, s.GasLimit, s.GasUsed
+	ts, bf, bh, tr := Uint64View(s.Timestamp), &s.BaseFeePerGas, common.RootViewOf(s.BlockHash), common.RootViewOf(s.TransactionsRoot)
+	wr := common.RootViewOf(s.WithdrawalsRoot)
 
 	v, err := AsExecutionPayloadHeader(ExecutionPayloadHeaderType.FromFields(pr, cb, sr, rr, lb, rng, nr, gl, gu, ts, ed, bf, bh, tr, wr))
 	if err != nil {
